@@ -76,7 +76,7 @@ impl Chain {
     }
 
     pub fn blocks_in(&self, r: Range<u64>) -> impl Iterator<Item = &CardanoBlockWithTransactions> {
-        self.blocks.iter().filter(move |b| r.contains(&b.block_number))
+        self.blocks.iter().filter(move |b| r.contains(&*b.block_number))
     }
 
     pub fn nodes_in(&self, r: Range<u64>) -> BTreeSet<CardanoBlockTransactionMkTreeNode> {
@@ -215,13 +215,20 @@ impl PMap {
         let pm: PMap = serde_json::from_value(serde_json::to_value(p).expect("proof to json")).expect("json to mirror");
         let real = p.to_bytes().expect("real proof to bytes");
         assert_eq!(real, pm.to_bytes(), "mirror proof layout differs from the real MKMapProof encoding");
+        let real_json = mithril_common::crypto_helper::ProtocolMkProof::new(p.clone()).to_json_hex().expect("real proof to json hex");
+        assert_eq!(real_json, pm.to_json_hex(), "mirror proof JSON differs from the real MKMapProof JSON encoding");
         pm
     }
     pub fn to_bytes(&self) -> Vec<u8> {
         bincode::serde::encode_to_vec(self, bincode::config::standard()).expect("mirror proof to bytes")
     }
+    /// v2 messages carry the proof as hex(bincode)
     pub fn to_hex(&self) -> String {
         hex::encode(self.to_bytes())
+    }
+    /// the legacy message carries the proof as hex(JSON)
+    pub fn to_json_hex(&self) -> String {
+        hex::encode(serde_json::to_string(self).expect("mirror proof to json"))
     }
     pub fn root_hex(&self) -> String {
         hex::encode(&self.master_proof.inner_root.hash)
@@ -306,7 +313,7 @@ impl Resp {
                 "certificate_hash": self.certificate_hash,
                 "certified_transactions": self.parts.iter().map(|p| json!({
                     "transactions_hashes": p.items.iter().map(|i| i.to_json()).collect::<Vec<_>>(),
-                    "proof": p.proof.to_hex(),
+                    "proof": p.proof.to_json_hex(),
                 })).collect::<Vec<_>>(),
                 "non_certified_transactions": self.non_certified,
                 "latest_block_number": self.latest_block_number,
@@ -474,7 +481,11 @@ fn part_from_json(fmt: Fmt, v: &Value) -> Part {
         Fmt::Legacy => ("transactions_hashes", v["proof"].as_str().unwrap()),
         _ => ("items", v["proof"].as_str().unwrap()),
     };
-    let real = mithril_common::crypto_helper::ProtocolMkProof::from_bytes_hex(proof_hex).expect("honest proof decodes");
+    let real = match fmt {
+        Fmt::Legacy => mithril_common::crypto_helper::ProtocolMkProof::from_json_hex(proof_hex),
+        _ => mithril_common::crypto_helper::ProtocolMkProof::from_bytes_hex(proof_hex),
+    }
+    .expect("honest proof decodes");
     let proof = PMap::from_real(&real);
     let items = v[items_key]
         .as_array()
